@@ -177,6 +177,8 @@ def _mirror(m, op, mode):
             return ("derived", m + _operand_triples(op[1], op[2], m, mode), op[3])
         elif name == "mul":
             return ("derived", m * op[1], op[2])
+        elif name == "rmul":
+            return ("derived", op[1] * m, op[2])
         elif name == "slice":
             return ("derived", m[op[1]:op[2]:op[3]], op[4])
         elif name in ("copy", "construct"):
@@ -263,6 +265,8 @@ def _library(res, op, mode):
         return res, res + _operand_obj(op[1], op[2], res, mode), None
     elif name == "mul":
         return res, res * op[1], None
+    elif name == "rmul":
+        return res, op[1] * res, None
     elif name == "slice":
         return res, res[op[1]:op[2]:op[3]], None
     elif name == "copy":
@@ -476,7 +480,7 @@ def _rand_op(rng, name, m):
         return (name, kind, [] if kind == "self" else _rand_vals(rng))
     if name == "add":
         return (name, rng.choice(["list", "ar"]), _rand_vals(rng), keep)
-    if name == "mul":
+    if name in ("mul", "rmul"):
         return (name, rng.choice([-1, 0, 1, 2, 3]), keep)
     if name == "slice":
         a = rng.choice([None] + list(range(-n - 1, n + 2)))
@@ -688,7 +692,7 @@ def check_item(case):
 
 
 # --- derived collections ----------------------------------------------------------------------
-_DERIVED = ["slice", "add", "mul", "copy", "construct", "filter", "filter_states", "apply_function", "convert_states"]
+_DERIVED = ["slice", "add", "mul", "rmul", "copy", "construct", "filter", "filter_states", "apply_function", "convert_states"]
 
 
 def _gen_derived(ctx):
@@ -698,7 +702,7 @@ def _gen_derived(ctx):
             ops = [("slice", a, b, s, False) for a in (None, 0, 1, -1) for b in (None, 0, 1, n, -1)
                    for s in (None, 2, -1)]
             ops += [("add", k, vs, False) for k in ("list", "ar") for vs in OPERANDS]
-            ops += [("mul", k, False) for k in (-1, 0, 1, 2, 3)]
+            ops += [("mul", k, False) for k in (-1, 0, 1, 2, 3)] + [("rmul", k, False) for k in (0, 1, 2)]
             ops += [("copy", False)] + [("construct", k, False) for k in ("list", "tuple", "gen", "iter", "ar")]
             ops += [("filter", p, False) for p in ("all", "none", "spin", "lt:1", "lt:2.5", "ge:1", "ge:0.5")]
             ops += [("filter_states", p, False) for p in ("all", "none", "first_one", "a_low")]
